@@ -334,7 +334,12 @@ def interactions(repo, chk):
                 oks.add('C18.4d')
             else:
                 problems.setdefault('C18.4d', (u['node'], f'only names containing AND may contribute to the aggregated table; guard: {show(guard)[:80] if guard else "none"}'))
-        if feeds and not two_level:
+        # a name cut in two at the first ' AND ' (partition / split with a limit): only right for interactions of exactly two features
+        pair_cut = [c for c in calls(fn) if isinstance(c.func, ast.Attribute) and ((c.func.attr in ('partition', 'rpartition') and c.args and isinstance(c.args[0], ast.Constant) and 'AND' in str(c.args[0].value))
+                                                                                   or (c.func.attr in ('split', 'rsplit') and len(c.args) == 2 and isinstance(c.args[0], ast.Constant) and 'AND' in str(c.args[0].value)))]
+        if feeds and not two_level and pair_cut:
+            problems.setdefault('C18.4b', (pair_cut[0], f"the interaction name is cut at one ' AND ' only ({ast.unparse(pair_cut[0])[:60]}): for interactions of three or more features the remainder `b AND c` is treated as one constituent, so the per-constituent medians are wrong"))
+        elif feeds and not two_level:
             u = feeds[0]
             chk.unsure('C18.4b', 'R15', fn.site(u['node']), ast.unparse(u['node'])[:100], "the scores are collected, but not by a loop over name.split('-')[0].split(' AND '): how the constituents are obtained is outside the vocabulary of the accepted forms")
         if not feeds:
